@@ -152,10 +152,9 @@ Proof.
   rewrite drop_app by (symmetry; apply lenN_enc_variant). reflexivity.
 Qed.
 
-Lemma um_objcall_enc a0 name tid o a :
+Lemma um_objcall_enc name tid o a :
   wf_strb name = true -> tid < 18446744073709551616 -> wf_propsb o = true -> wf_oprops a = true ->
-  um_objcall a0 (enc_hdr name tid ++ enc (AObj o) ++ enc_oprops a)
-  = Ok (name, tid, o, match a with Some x => Some x | None => a0 end).
+  um_objcall (enc_hdr name tid ++ enc (AObj o) ++ enc_oprops a) = Ok (name, tid, o, a).
 Proof.
   intros Hn Ht Ho Ha. unfold um_objcall. rewrite um_hdr_enc by assumption. cbn [bind].
   rewrite um_object_enc_fuel by exact Ho. rewrite step_ok. cbn [bind].
@@ -368,7 +367,7 @@ Proof.
   rewrite drop_app by (symmetry; exact Hl). cbn [bind]. apply np_ok.
 Qed.
 
-Lemma um_objcall_total a0 data : np (um_objcall a0 data).
+Lemma um_objcall_total data : np (um_objcall data).
 Proof.
   unfold um_objcall. apply np_bind; [apply um_hdr_total|].
   intros [[nm t] p2] Eh.
@@ -394,7 +393,7 @@ Proof.
   destruct b as [|c [|d [|e [|f [|c' [|d' [|e' [|f' r]]]]]]]]; cbn [length]; try lia. eauto 10.
 Qed.
 
-Lemma um_user_control_total x0 data : np (unmarshal (PUserControl 0 0 x0) data).
+Lemma um_user_control_total data : np (unmarshal (PUserControl 0 0 0) data).
 Proof.
   cbn [unmarshal]. destruct data as [|a [|b body]]; try apply np_err.
   destruct (is_nil body) eqn:Eb; [apply np_err|].
@@ -440,7 +439,7 @@ Proof.
   - unfold um_control4. destruct data as [|a [|b [|c [|d r]]]]; cbn [bind]; try apply np_err; apply np_ok.
   - unfold um_control4. destruct data as [|a [|b [|c [|d r]]]]; cbn [bind]; try apply np_err; apply np_ok.
   - destruct data as [|a [|b [|c [|d [|e r]]]]]; try apply np_err; apply np_ok.
-  - exact (um_user_control_total x data).
+  - exact (um_user_control_total data).
 Qed.
 
 Lemma parse_amf_object_total t p : np (fst (parse_amf_object t p)).
